@@ -79,34 +79,42 @@ Demand(b, W) ==
 (* ------------------------------------------------------------------ *)
 Eff(s) == s.hk /\ ~s.big
 
+\* what a one-shot protected call makes of the result of its body
+Caught(r, Dv) == CASE r = "T" -> IF "PcallCatchesTimeout" \in Dv THEN "N" ELSE "T"
+                   [] r = "E" -> "N"
+                   [] OTHER -> r
+
+\* Sem = [rs |-> set of possible results, s |-> hook state afterwards].  The only
+\* source of non-determinism is WHERE the count hook fires in a catch-and-continue loop
+\* whose iterations end by themselves: inside the protected call (caught, the loop goes
+\* on) or in the loop statement itself (the error leaves the loop).
 RECURSIVE Sem(_, _, _, _, _)
 Sem(b, W, i, s, Dv) ==
   IF i > Len(W) THEN
-    [r |-> IF b \in Infinite THEN (IF Eff(s) THEN "T" ELSE "H") ELSE "E", s |-> s]
+    [rs |-> {IF b \in Infinite THEN (IF Eff(s) THEN "T" ELSE "H") ELSE "E"}, s |-> s]
   ELSE
     LET w == W[i] IN
     CASE w \in {"pcall", "xpcall"} ->
            LET x == Sem(b, W, i + 1, s, Dv) IN
-           [r |-> CASE x.r = "T" -> IF "PcallCatchesTimeout" \in Dv THEN "N" ELSE "T"
-                    [] x.r = "E" -> "N"
-                    [] OTHER -> x.r,
-            s |-> x.s]
+           [rs |-> {Caught(r, Dv) : r \in x.rs}, s |-> x.s]
       [] w \in CoKinds ->
            LET s1 == [hk |-> "CoroutineNoHook" \notin Dv, mh |-> s.mh, big |-> s.big, main |-> FALSE]
                x == Sem(b, W, i + 1, s1, Dv)
                back == [hk |-> IF s.main THEN x.s.mh ELSE s.hk, mh |-> x.s.mh, big |-> x.s.big, main |-> s.main]
-           IN [r |-> IF w = "cowrap" THEN x.r
-                     ELSE CASE x.r = "T" -> IF "PcallCatchesTimeout" \in Dv THEN "N" ELSE "T"
-                            [] x.r = "E" -> "N"
-                            [] OTHER -> x.r,
-               s |-> back]
+           IN [rs |-> IF w = "cowrap" THEN x.rs ELSE {Caught(r, Dv) : r \in x.rs}, s |-> back]
       [] w \in Loops ->
-           LET x == Sem(b, W, i + 1, s, Dv) IN
-           \* every iteration ends with an error (the hook's, or deeprec's overflow); the
-           \* repaired pcall re-raises it once the deadline has passed, the host pcall never
-           [r |-> IF x.r = "H" THEN "H"
-                  ELSE IF ~x.s.big /\ "PcallCatchesTimeout" \notin Dv THEN "T"
-                  ELSE "H",
+           LET x == Sem(b, W, i + 1, s, Dv)
+               ending == x.rs \ {"H"}      \* iterations that come to an end
+               repaired == "PcallCatchesTimeout" \notin Dv
+           IN
+           \* every ending iteration ends with an error (the hook's, or deeprec's overflow).
+           \* Repaired pcall: re-raised once the deadline has passed.  Host pcall: caught for
+           \* ever, unless the hook fires in the loop statement, which needs iterations that
+           \* are not themselves ended by the hook (the count restarts at every firing).
+           [rs |-> (IF "H" \in x.rs THEN {"H"} ELSE {})
+                   \cup (IF ending = {} THEN {}
+                         ELSE IF repaired THEN (IF x.s.big THEN {"H"} ELSE {"T"})
+                         ELSE {"H"} \cup (IF Eff(x.s) /\ ending \cap {"E", "N"} # {} THEN {"T"} ELSE {})),
             s |-> x.s]
       [] w = "clear" ->
            Sem(b, W, i + 1,
@@ -123,7 +131,8 @@ Sem(b, W, i, s, Dv) ==
 
 S0 == [hk |-> TRUE, mh |-> TRUE, big |-> FALSE, main |-> TRUE]
 OutcomeOf(r) == CASE r = "T" -> "aborted" [] r = "E" -> "error" [] r = "N" -> "returned" [] r = "H" -> "hung"
-Pred(b, W, Dv) == OutcomeOf(Sem(b, W, 1, S0, Dv).r)
+\* set of outcome classes the code can show for this program under these deviations
+Pred(b, W, Dv) == {OutcomeOf(r) : r \in Sem(b, W, 1, S0, Dv).rs}
 
 (* ------------------------------------------------------------------ *)
 (* small-step machine                                                  *)
@@ -132,7 +141,9 @@ VARIABLES
   prog,      \* [body, wrap]
   status,    \* idle | running | aborted | error | returned   (what expand() sees)
   phase,     \* run | unwind | ret
-  stack,     \* control stack: one frame [k] per entered wrapper (k = kind, or "seq")
+  stack,     \* control stack of frames [k, d]: k = kind of the wrapper ("seq" for the transparent
+             \* ones), d = its index; a catch-and-continue loop has two frames: "loop" (the loop
+             \* statement) and, while an iteration runs, "lpc" (its protected call)
   err,       \* none | timeout | lua   (error being propagated)
   hooked,    \* thread -> BOOLEAN: count hook installed on that Lua thread
   limit,     \* the shared _lua_current_max_time
@@ -150,7 +161,10 @@ W == prog.wrap
 Done == {"aborted", "error", "returned"}
 Threads == 0..3
 Cur == Cardinality({i \in DOMAIN stack : stack[i].k \in CoKinds})
-InBody == status = "running" /\ phase = "run" /\ Len(stack) = Len(W)
+Top == stack[Len(stack)]
+Depth == IF stack = <<>> THEN 0 ELSE Top.d
+AtLoopLevel == stack # <<>> /\ Top.k = "loop"
+InBody == status = "running" /\ phase = "run" /\ Depth = Len(W) /\ ~AtLoopLevel
 PyZero == [expand |-> 0, env |-> 0, frame |-> 0]
 DeadlinePassed == status = "running" /\ now > D
 
@@ -166,33 +180,37 @@ Invoke ==
   /\ status' = "running"
   /\ py' = [expand |-> 1, env |-> 1, frame |-> 1]
   /\ hooked' = [hooked EXCEPT ![0] = TRUE]
-  /\ limit' = Limit0 /\ budget' = B
+  /\ limit' = Limit0 /\ budget' \in 1..B    \* the phase of the instruction counter is not known
   /\ UNCHANGED <<prog, phase, stack, err, checked, now, swallowed, rec, spin>>
 
-Push(k) == stack' = Append(stack, [k |-> k])
+Push(k, d) == stack' = Append(stack, [k |-> k, d |-> d])
 
 \* the wrapper code itself runs (and counts instructions) on the current thread
 Enter ==
-  /\ status = "running" /\ phase = "run" /\ Len(stack) < Len(W)
+  /\ status = "running" /\ phase = "run" /\ (AtLoopLevel \/ Depth < Len(W))
   /\ hooked[Cur] => budget > 0
   /\ budget' = IF hooked[Cur] THEN budget - 1 ELSE budget
-  /\ LET w == W[Len(stack) + 1] t == Cur IN
-     CASE w \in Catchers \ {"cores"} \/ w \in Loops ->
-            Push(w) /\ UNCHANGED <<hooked, limit>>
+  /\ IF AtLoopLevel
+     THEN Push("lpc", Depth) /\ UNCHANGED <<hooked, limit>>      \* next iteration: pcall(function() ... end)
+     ELSE LET w == W[Depth + 1] d == Depth + 1 t == Cur IN
+     CASE w \in {"pcall", "xpcall"} ->
+            Push(w, d) /\ UNCHANGED <<hooked, limit>>
+       [] w \in Loops ->
+            Push("loop", d) /\ UNCHANGED <<hooked, limit>>
        [] w \in CoKinds ->
-            /\ Push(w)
+            /\ Push(w, d)
             /\ hooked' = [hooked EXCEPT ![t + 1] = "CoroutineNoHook" \notin Dev]
             /\ UNCHANGED limit
        [] w = "clear" ->
-            /\ Push("seq")
+            /\ Push("seq", d)
             /\ hooked' = IF "HookControlExported" \in Dev THEN [hooked EXCEPT ![t] = FALSE] ELSE hooked
             /\ UNCHANGED limit
        [] w = "rearm" ->
-            /\ Push("seq")
+            /\ Push("seq", d)
             /\ hooked' = IF "HookControlExported" \in Dev THEN [hooked EXCEPT ![t] = TRUE] ELSE hooked
             /\ limit' = IF "HookControlExported" \in Dev THEN Big ELSE limit
        [] w = "inv" ->   \* the nested _lua_invoke runs on the main Lua thread
-            /\ Push("seq")
+            /\ Push("seq", d)
             /\ hooked' = IF "NestedInvokeResetsHook" \in Dev THEN [hooked EXCEPT ![0] = FALSE] ELSE hooked
             /\ limit' = IF "NestedInvokeResetsHook" \in Dev THEN Big ELSE limit
   /\ UNCHANGED <<prog, status, phase, err, checked, now, swallowed, rec, spin, py>>
@@ -243,16 +261,12 @@ Unwind ==
   /\ IF stack = <<>>
      THEN /\ Finish(IF err = "timeout" THEN "aborted" ELSE "error")
           /\ UNCHANGED <<phase, stack, err, swallowed>>
-     ELSE LET f == stack[Len(stack)] IN
-          /\ UNCHANGED <<status, py, hooked>>
-          /\ CASE f.k \in {"seq", "cowrap"} -> Pop /\ UNCHANGED <<phase, err, swallowed>>
-               [] f.k \in Catchers ->
-                    IF Reraise THEN Pop /\ err' = "timeout" /\ UNCHANGED <<phase, swallowed>>
-                    ELSE Pop /\ phase' = "ret" /\ err' = "none" /\ swallowed' = (swallowed \/ err = "timeout")
-               [] f.k \in Loops ->
-                    IF Reraise THEN Pop /\ err' = "timeout" /\ UNCHANGED <<phase, swallowed>>
-                    ELSE /\ UNCHANGED stack /\ phase' = "run" /\ err' = "none"
-                         /\ swallowed' = (swallowed \/ err = "timeout")
+     ELSE /\ UNCHANGED <<status, py, hooked>>
+          /\ Pop
+          /\ IF Top.k \in Catchers \cup {"lpc"} /\ ~Reraise
+             THEN phase' = "ret" /\ err' = "none" /\ swallowed' = (swallowed \/ err = "timeout")
+             ELSE /\ err' = IF Top.k \in Catchers \cup {"lpc"} THEN "timeout" ELSE err
+                  /\ UNCHANGED <<phase, swallowed>>
   /\ UNCHANGED <<prog, limit, budget, checked, now, rec, spin>>
 
 Ret ==
@@ -260,7 +274,7 @@ Ret ==
   /\ IF stack = <<>>
      THEN Finish("returned") /\ UNCHANGED <<phase, stack>>
      ELSE /\ UNCHANGED <<status, py, hooked>>
-          /\ IF stack[Len(stack)].k \in Loops
+          /\ IF Top.k = "loop"
              THEN phase' = "run" /\ UNCHANGED stack
              ELSE Pop /\ UNCHANGED phase
   /\ UNCHANGED <<prog, err, limit, budget, checked, now, swallowed, rec, spin>>
@@ -275,18 +289,18 @@ Fair == WF_vars(ProgNext) /\ WF_vars(Tick)
 TypeOK ==
   /\ status \in {"idle", "running"} \cup Done /\ phase \in {"run", "unwind", "ret"}
   /\ err \in {"none", "timeout", "lua"} /\ budget \in 0..B /\ now \in 0..Horizon
-  /\ Len(stack) <= Len(W)
+  /\ Len(stack) <= 2 * Len(W)
 
-\* the in-band result is the one the big-step semantics predicts for these deviations
+\* the in-band result is one the big-step semantics predicts for these deviations
 OutcomeMatches ==
   LET p == Pred(prog.body, W, Dev) IN
-  /\ status \in Done => status = p
-  /\ p = "hung" => status \notin Done
+  /\ status \in Done => status \in p
+  /\ p = {"hung"} => status \notin Done
 
 \* C07, liveness part: once the deadline has passed the invocation ends ...
 AbortedAfterDeadline == DeadlinePassed ~> (status \in Done)
 \* ... code that ends by itself does end
-TerminatingEnds == (status = "idle" /\ Pred(prog.body, W, Dev) \in {"error", "returned"}) ~> (status \in Done)
+TerminatingEnds == (status = "idle" /\ Pred(prog.body, W, Dev) \subseteq {"error", "returned"}) ~> (status \in Done)
 \* ... a raised timeout is never turned into a normal result
 TimeoutNotSwallowed == status = "returned" => ~swallowed
 \* ... and it ends within one clock granule (+ one hook period) after the limit
@@ -294,5 +308,5 @@ BoundedOverrun == status = "running" => now <= D + 1
 \* after the invocation, whatever its result, the context is as before it
 CtxRestored == status \in Done => py = PyZero /\ \A t \in Threads : ~hooked[t]
 \* with no deviation every program of the grammar gets what the property demands
-IdealMeetsDemand == Pred(prog.body, W, {}) = Demand(prog.body, W)
+IdealMeetsDemand == Pred(prog.body, W, {}) = {Demand(prog.body, W)}
 =============================================================================
